@@ -3,7 +3,7 @@ The tie by translation, part 2: the two expected-data-length tables of `mctp_tra
 (`get_request_data_len`, `get_response_data_len`), translated from MIR, against the model's
 `reqDataLen` / `respDataLen` - including which commands hit `unimplemented!()`.
 -/
-import Mctp.Tie.Enums
+import Mctp.Tie.Names
 import Mctp.Model.Decode
 namespace Mctp.Tie
 open Mctp.Mir
